@@ -11,6 +11,10 @@ from the tree under test ($AEGEAN_REPO, default /repo) on every run.
                                        left is rows 0 … dn): which rows of the loaded block are subtracted, and which rows of
                                        the full-size map they are taken from  (the site of ledger item 8 / fixes/C06-01)
 
+  wsLeaks, wsInitParams, wsInitArgs    worker state: how many module globals written by the parent (filter_mc_sharemem /
+                                       filter_image) are read by the code the workers run (sigma_filter, _sf2) without being set by
+                                       the pool initializer from its initargs; arity of the initializer and of initargs
+
 All but `box` are sliced out of the AST into small Python functions (inside the translator's int-mode whitelist) written to a
 scratch file; leading plain-name aliases are inlined, the statements are found by what they assign / call, not by position.
 Anything the slicer does not recognise becomes a call the translator rejects: the piece is reported UNTRANSLATABLE and the hand
@@ -116,6 +120,56 @@ def _subtract_slice(fn):
     return head + f"    tlo = {tgt[0]}\n    thi = {tgt[1]}\n    slo = {src[0] or '0'}\n    shi = {src[1] or 'nr'}\n    return tlo\n"
 
 
+def _globals_written(fn):
+    """names declared `global` in fn and assigned there"""
+    decl = {n for st in ast.walk(fn) if isinstance(st, ast.Global) for n in st.names}
+    stored = {n.id for n in ast.walk(fn) if isinstance(n, ast.Name) and isinstance(n.ctx, ast.Store)}
+    return decl & stored
+
+
+def _worker_state_slice(tree):
+    """what a worker can only have by inheriting the parent's memory: module globals that the parent writes after import
+    (in filter_mc_sharemem / filter_image) and that the code run in the workers (sigma_filter, _sf2) reads, minus those
+    the pool initializer sets from its `initargs`.  Under the 'spawn' / 'forkserver' start methods such a global still has
+    its import-time value in the worker.  Emits  leaks = <how many>, ninit = parameters of the initializer,
+    nargs = length of initargs  (99 when the Pool(...) call is not recognised)."""
+    head = "def worker_state(z):\n"
+    bad = head + "    leaks = untranslatable('worker set-up not recognised')\n    ninit = leaks\n    nargs = leaks\n    return leaks\n"
+    fns = {n.name: n for n in tree.body if isinstance(n, ast.FunctionDef)}
+    if not {'sigma_filter', 'filter_mc_sharemem'} <= set(fns):
+        return bad
+    pools = [c for c in ast.walk(fns['filter_mc_sharemem']) if isinstance(c, ast.Call) and ast.unparse(c.func).endswith('Pool')]
+    if len(pools) != 1:
+        return bad
+    kw = {k.arg: k.value for k in pools[0].keywords}
+    if 'initializer' not in kw or 'initargs' not in kw or not isinstance(kw['initializer'], ast.Name) \
+            or kw['initializer'].id not in fns or not isinstance(kw['initargs'], (ast.Tuple, ast.List)):
+        return bad
+    init = fns[kw['initializer'].id]
+    params = [a.arg for a in init.args.args]
+    # globals the initializer sets *from its parameters*
+    from_args = set()
+    decl = {n for st in ast.walk(init) if isinstance(st, ast.Global) for n in st.names}
+    for st in init.body:
+        if isinstance(st, ast.Assign) and len(st.targets) == 1 and isinstance(st.targets[0], ast.Name) \
+                and st.targets[0].id in decl and isinstance(st.value, ast.Name) and st.value.id in params:
+            from_args.add(st.targets[0].id)
+    written = set()
+    for name in ('filter_mc_sharemem', 'filter_image'):
+        if name in fns:
+            written |= _globals_written(fns[name])
+    read = set()
+    for name in ('sigma_filter', '_sf2'):
+        if name in fns:
+            f = fns[name]
+            local = {a.arg for a in f.args.args} | {n.id for n in ast.walk(f) if isinstance(n, ast.Name) and isinstance(n.ctx, ast.Store)}
+            gdecl = {n for st in ast.walk(f) if isinstance(st, ast.Global) for n in st.names}
+            read |= {n.id for n in ast.walk(f) if isinstance(n, ast.Name) and isinstance(n.ctx, ast.Load)
+                     and (n.id not in local or n.id in gdecl)}
+    leaks = sorted((written & read) - from_args)
+    return head + f"    leaks = {len(leaks)}   # {leaks}\n    ninit = {len(params)}\n    nargs = {len(kw['initargs'].elts)}\n    return leaks\n"
+
+
 def _slices():
     repo = os.environ.get('AEGEAN_REPO', '/repo')
     try:
@@ -124,7 +178,7 @@ def _slices():
         text = "\n\n".join([_loaded_slice(fn),
                             _grid_slice(fn, 'rows', 'grid_rows', ['ymin', 'ymax', 'drmin', 'gy']),
                             _grid_slice(fn, 'cols', 'grid_cols', ['nc', 'gx']),
-                            _subtract_slice(fn)])
+                            _subtract_slice(fn), _worker_state_slice(tree)])
     except Exception as exc:
         text = f"# slicing failed: {exc!r}\n"
     d = os.path.join(tempfile.gettempdir(), 'verif-C06-slices')
@@ -143,6 +197,7 @@ _LP = ['ymin', 'ymax', 'bY', 'nr']
 _GR = ['ymin', 'ymax', 'drmin', 'gy']
 _GC = ['nc', 'gx']
 _SP = ['ymin', 'ymax', 'drmin', 'drmax', 'dn', 'nr']
+_WP = ['z']
 
 
 def _fb(name, params, body):
@@ -176,4 +231,9 @@ TARGETS = [
          fallback={'subTLo': _fb('subTLo', _SP, '0'), 'subTHi': _fb('subTHi', _SP, 'dn'),
                    'subSLo': _fb('subSLo', _SP, 'drmin'), 'subSHi': _fb('subSHi', _SP, 'drmax')},
          fallback_imports=[], all_params=_SP),
+    dict(file=_S, func='worker_state', mode='int', params={'z': 'N'},
+         outputs=[('leaks', 'wsLeaks'), ('ninit', 'wsInitParams'), ('nargs', 'wsInitArgs')],
+         fallback={'wsLeaks': _fb('wsLeaks', _WP, '0'), 'wsInitParams': _fb('wsInitParams', _WP, '2'),
+                   'wsInitArgs': _fb('wsInitArgs', _WP, '2')},
+         fallback_imports=[], all_params=_WP),
 ]
